@@ -9,6 +9,7 @@ structure DState where
   w : World := {}
   tm : TM := {}
   seen : Nat := 0        -- log entries already reported
+  cov : List (String × Nat) := []   -- branch classes of the model definitions exercised so far (tag, count)
 
 def b01 (b : Bool) : String := if b then "1" else "0"
 
@@ -150,4 +151,142 @@ def step (st : DState) (toks : List String) : DState × String :=
       | _, _, _, _, _, _ => (st, "bad-op")
   | _ => (st, "bad-op")
 
-def main : IO Unit := Proto.run ({} : DState) step
+/-! ### which branch of which model definition does a request exercise?  (reported by the `coverage` request; the harness
+    fails the run when a branch class listed in the design stays at zero) -/
+
+def bump (cov : List (String × Nat)) (tag : String) : List (String × Nat) :=
+  match cov with
+  | [] => [(tag, 1)]
+  | (t, n) :: rest => if t == tag then (t, n + 1) :: rest else (t, n) :: bump rest tag
+
+def deliverTag (now : Nat) (t : Task) : String :=
+  if t.done then "deliver.done"
+  else if t.cancelReq then
+    if t.stub = 0 || !t.started then "deliver.cancel-immediate"
+    else match t.dying with
+      | none => "deliver.cancel-starts-dying"
+      | some d => if d ≤ now then "deliver.cancel-died" else "deliver.cancel-still-dying"
+  else match t.kind with
+    | .imm => "deliver.imm-runs"
+    | .long => if t.started then "deliver.long-waits" else "deliver.long-starts"
+    | .delayed => if t.due ≤ now then "deliver.delayed-fires" else "deliver.delayed-waits"
+    | .interval => if t.due ≤ now then "deliver.interval-fires" else "deliver.interval-waits"
+    | .fut => "deliver.fut-waits"
+
+/-- tags of one loop pass (same sub-expressions as `TM.pass`) -/
+def passTags (tm : TM) : List String :=
+  let none := tm.conts.filter (fun c => c.after.isNone)
+  let tm0 := none.foldl TM.fireCont { tm with conts := tm.conts.filter (fun c => c.after.isSome) }
+  let ts := tm0.tasks.map (deliver tm0.now)
+  let ready := tm0.conts.filter (contReady ts)
+  let waiting := tm0.conts.filter (fun c => !(contReady ts c))
+  let fired (t : TM) (cs : List Cont) : List String :=
+    (cs.foldl (fun (acc : TM × List String) c =>
+      let r := acc.1.register c.name c.spec
+      (acc.1.fireCont c, acc.2 ++ [match r.2 with | .ok _ => "cont.fires-ok" | .exists => "cont.fires-name-taken" | .refused => "cont.fires-refused"]))
+      (t, [])).2
+  (tm0.tasks.map (deliverTag tm0.now)) ++ fired { tm with conts := tm.conts.filter (fun c => c.after.isSome) } none ++
+  (if waiting.isEmpty then [] else ["cont.still-waiting"]) ++
+  fired { tm0 with tasks := ts, map := tm0.map.filter (fun e => !(taskDone ts e.2)), conts := waiting } ready ++
+  (if (tm0.map.filter (fun e => taskDone ts e.2)).isEmpty then [] else ["pass.untracks-finished"])
+
+def settleTags (tm : TM) : List String := passTags tm ++ passTags tm.pass ++ passTags tm.pass.pass
+
+def hasDup : List Lid → Bool
+  | [] => false
+  | x :: xs => xs.contains x || hasDup xs
+
+def tagsOf (st : DState) (toks : List String) : List String :=
+  let w := st.w
+  let tm := st.tm
+  match toks with
+  | ["r", "add", o, _] =>
+      [if o == "1" then (if w.fwdAdd then "reg.add.via-wrapper-forwarded" else "reg.add.via-wrapper-own-lists") else "reg.add.direct",
+       if w.inner.pmap.isEmpty then "reg.add.no-prefix-lists" else "reg.add.appended-to-prefix-lists"]
+  | ["r", "addp", _, _, p] =>
+      [match p.toNat? with
+       | some p => if (lookupP w.inner.pmap p).isSome then "reg.addp.existing-prefix" else "reg.addp.new-prefix"
+       | none => "bad",
+       if w.inner.listeners.isEmpty then "reg.addp.no-generic-listeners" else "reg.addp.copies-generic-listeners"]
+  | ["r", "rm", o, l] =>
+      match l.toNat? with
+      | some l =>
+        let w' := w.step (.remove (o == "1") l)
+        [if o == "1" then (if w.fwdRemove then "reg.rm.via-wrapper-forwarded" else "reg.rm.via-wrapper-own-lists") else "reg.rm.direct",
+         if w.inner.listeners.contains l then "reg.rm.generic-listener" else "reg.rm.not-generic",
+         if w.inner.pmap.any (fun e => e.2.contains l) then "reg.rm.prefix-listener" else "reg.rm.not-in-prefix-lists",
+         if w'.inner.pmap.length < w.inner.pmap.length then "reg.rm.prefix-entry-dropped" else "reg.rm.prefix-entries-kept"]
+      | none => ["bad"]
+  | ["r", "fwd", a, _] => [match a.toNat? with
+                            | some a => if (lookupF w.fwd a).isSome then "reg.fwd.replaces" else "reg.fwd.new"
+                            | none => "bad"]
+  | ["r", "unfwd", _] => ["reg.unfwd"]
+  | ["r", "open", b] => [if b == "1" then "reg.open" else "reg.close"]
+  | ["r", "ref", x] => [if x == "none" then "reg.ref.cleared" else "reg.ref.set"]
+  | ["r", "anon", _, b] => [if b == "1" then "reg.anon.on" else "reg.anon.off"]
+  | ["r", "notify", p] =>
+      match p.toNat? with
+      | some p =>
+        let ds := w.inner.recipients p
+        [if !w.inner.isOpen then "notify.closed" else if (lookupP w.inner.pmap p).isSome then "notify.prefix-list" else "notify.generic-listeners",
+         if (ds.filterMap (fun l => lookupF w.fwd l)).isEmpty then "notify.no-proxy-forward" else "notify.proxy-forwards"]
+      | none => ["bad"]
+  | ["r", "tnotify", b, p] =>
+      match p.toNat? with
+      | some p =>
+        let rs := w.inner.recipients p
+        let fl := rs.filter (fun l => w.anon.contains l == (b == "1"))
+        [if b == "1" then "tnotify.from-tunnel" else "tnotify.from-socket",
+         if fl.length < rs.length then "tnotify.anonymize-filter-drops" else "tnotify.anonymize-filter-keeps-all",
+         if hasDup fl then "tnotify.duplicate-delivered-once" else "tnotify.no-duplicate"]
+      | none => ["bad"]
+  | ["r", "driven"] => [if w.tunnelRef.isSome then "driven.refers-to-community" else "driven.no-community"]
+  | "t" :: "reg" :: n :: sp =>
+      match n.toNat?, parseSpec sp with
+      | some n, some spec =>
+        let r := tm.register n spec
+        [match r.2 with | .ok _ => "register.ok" | .exists => "register.active-name-raises" | .refused => "register.refused-after-shutdown",
+         "register.kind." ++ (sp.headD "?")]
+      | _, _ => ["bad"]
+  | ["t", "cancel", n] =>
+      match n.toNat? with
+      | some n =>
+        [match lookupN tm.map n with
+         | none => "cancel.unknown-name"
+         | some id => if taskDone tm.tasks id then "cancel.finished-task" else if taskIsFut tm.tasks id then "cancel.future-completes-at-once" else "cancel.task-cancel-requested"]
+      | none => ["bad"]
+  | "t" :: "replace" :: n :: _ =>
+      match n.toNat? with
+      | some n => [if (tm.cancel n).2.2.isSome then "replace.waits-for-old-task" else "replace.nothing-to-wait-for"]
+      | none => ["bad"]
+  | ["t", "shutdown"] =>
+      [if tm.shutdown then "shutdown.already-down" else if (tm.tasks.filter (fun t => inMap tm.map t.id && !t.done)).isEmpty then "shutdown.nothing-tracked" else "shutdown.cancels-tracked-tasks"]
+  | ["t", "selfshutdown", _] => ["shutdown.from-own-task"]
+  | ["t", "active", n] => [match n.toNat? with | some n => if tm.isActive n then "is-active.true" else "is-active.false" | none => "bad"]
+  | ["t", "settle"] => settleTags tm
+  | ["t", "tick"] => settleTags tm ++ settleTags tm.settle.advance
+  | ["s", "add", o, _] => [match o.toNat? with
+                            | some o => if st.svc.overlays.contains o then "svc.add.known-overlay" else "svc.add.new-overlay"
+                            | none => "bad"]
+  | ["s", "unload", o] =>
+      match o.toNat? with
+      | some o =>
+        let k := (st.svc.strategies.filter (fun e => e.2 == o)).length
+        [if k == 0 then "svc.unload.no-strategy" else if k == 1 then "svc.unload.one-strategy" else "svc.unload.several-strategies",
+         if st.svc.overlays.contains o then "svc.unload.listed-overlay" else "svc.unload.unlisted-overlay"]
+      | none => ["bad"]
+  | ["u", cls, o, _, _, _, _, _] =>
+      match Gen.classes.find? (fun ci => ci.name == cls) with
+      | some ci => ("unload.stack." ++ o) :: ci.script.map (fun op => "uop." ++ (toString (repr op)).takeWhile (fun ch => ch != ' '))
+      | none => ["bad"]
+  | _ => []
+
+def stepCov (st : DState) (toks : List String) : DState × String :=
+  match toks with
+  | ["coverage"] => (st, ";".intercalate (st.cov.map (fun e => s!"{e.1}={e.2}")))
+  | _ =>
+    let tags := tagsOf st toks
+    let r := step st toks
+    ({ r.1 with cov := tags.foldl bump st.cov }, r.2)
+
+def main : IO Unit := Proto.run ({} : DState) stepCov
